@@ -1085,7 +1085,7 @@ impl<'a> Builder<'a> {
             }
             Misc => {
                 let seed = self.seed ^ a[3] as u32;
-                match a[0] % 14 {
+                match a[0] % 16 {
                     0 => {
                         let Some(x) = self.pick_val(s0, |v| v.mag < 1e6) else { return false };
                         let xv = self.vals[x].clone();
@@ -1335,6 +1335,50 @@ impl<'a> Builder<'a> {
                             let c = self.const_f32(&[n], |i| nice_f32(seed ^ 5, i));
                             self.node("Gemm", &[x, w, c], vec![("transB", Attr::Int(tb as i64))], vec![(DType::F32, vec![m, n], mag)]);
                         }
+                    }
+                    14 => {
+                        // NonMaxSuppression: one class, pairwise disjoint boxes, no thresholds -> every box is selected
+                        let b = 1 + (a[1] % 2) as usize;
+                        let n = 1 + (a[1] as usize >> 2) % 4;
+                        let center = a[2] & 1 == 1;
+                        let boxes = self.const_f32(&[b, n, 4], |i| {
+                            let k = (i / 4) as f32 * 3.0;
+                            if center {
+                                [k + 0.5, k + 0.5, 1.0, 1.0][(i % 4) as usize]
+                            } else {
+                                [k, k, k + 1.0, k + 1.0][(i % 4) as usize]
+                            }
+                        });
+                        let scores = self.const_f32(&[b, 1, n], |i| 0.25 + (hash32(seed, i) % 8) as f32 * 0.25);
+                        let mut names = vec![self.vals[boxes].name.clone(), self.vals[scores].name.clone()];
+                        // rten suppresses a box when IoU >= iou_threshold (default 0), i.e. even disjoint boxes
+                        // without an explicit threshold, so the threshold input is always given
+                        let k = self.const_i64(&[], vec![(b * n) as i64 + (a[2] as i64 >> 2) % 3]);
+                        names.push(self.vals[k].name.clone());
+                        let iou = self.const_f32(&[], |_| 0.5);
+                        names.push(self.vals[iou].name.clone());
+                        let attrs = if center { vec![("center_point_box", Attr::Int(1))] } else { vec![] };
+                        self.node_named("NonMaxSuppression", names, attrs, vec![(DType::I64, vec![b * n, 3], n as f64)], false);
+                    }
+                    15 => {
+                        // com.microsoft MatMulNBits: 4-bit block-quantized rhs [N, K/block, block/2]
+                        let block = 16usize << (a[1] % 2);
+                        let kb = 1 + (a[1] as usize >> 1) % 2;
+                        let k = block * kb;
+                        let n = 1 + (a[1] as usize >> 3) % 4;
+                        let m = 1 + (a[2] % 3) as usize;
+                        let lhs_shape = if a[2] & 4 == 0 { vec![m, k] } else { vec![2, m, k] };
+                        let lhs = self.const_f32(&lhs_shape, |i| nice_f32(seed, i) * 0.25);
+                        let rhs = self.const_small(DType::U8, &[n, kb, block / 2], |i| (hash32(seed ^ 21, i) % 256) as i64);
+                        let scales = self.const_f32(&[n, kb], |i| [0.125f32, 0.25, 0.0625, 0.5][(hash32(seed ^ 22, i) % 4) as usize]);
+                        let mut out_shape = lhs_shape[..lhs_shape.len() - 1].to_vec();
+                        out_shape.push(n);
+                        let mut attrs = vec![("K", Attr::Int(k as i64)), ("N", Attr::Int(n as i64)), ("bits", Attr::Int(4)), ("block_size", Attr::Int(block as i64))];
+                        if a[2] & 8 != 0 {
+                            attrs.push(("accuracy_level", Attr::Int(4)));
+                        }
+                        self.node("MatMulNBits", &[lhs, rhs, scales], attrs, vec![(DType::F32, out_shape, k as f64 * 16.0)]);
+                        self.set_domain(MS);
                     }
                     _ => {
                         // Multinomial (seeded -> still declared non-deterministic by the op)
